@@ -5,7 +5,9 @@ Open Scope Z_scope.
 
 Inductive case := Case (g : gtfcfg) (strat : strategy)
                        (extra : list (str * list idkey))     (* further id_spec entries, e.g. the subfeature type keyed on exon_id *)
-                       (feats : list row) (impl : result tables).
+                       (feats : list row)
+                       (feats2 : list row)    (* [] or a second batch, about other genes and transcripts, imported through update() on the same in-memory database *)
+                       (impl : result tables).
 
 Definition keys_of (k : str) (l : list row) : list str :=
   dedup_strs (flat_map (fun f => match first_val k f with Some v => [v] | None => [] end) l).
@@ -16,10 +18,9 @@ Definition in_domain (g : gtfcfg) (feats : list row) : bool :=
   (* explicit ids are unique *)
   (let ex := flat_map (fun f => match explicit_id g f with Some i => [i] | None => [] end) feats in
    Nat.eqb (length (dedup_strs ex)) (length ex)) &&
-  (* one seqid/strand per transcript and per gene; one gene per transcript; ids of the two kinds are distinct *)
+  (* one seqid/strand per transcript and per gene; ids of the two kinds are distinct (a transcript may occur under several genes) *)
   forallb (fun t => all_same (map r_seqid (subs_of g (g_tkey g) t feats)) && all_same (map r_strand (subs_of g (g_tkey g) t feats))
-                    && Nat.eqb (length (keys_of (g_gkey g) (filter (fun f => match first_val (g_tkey g) f with
-                                                                          | Some x => str_eqb x t | None => false end) feats))) 1)
+                    )
           (keys_of (g_tkey g) feats) &&
   forallb (fun gn => all_same (map r_seqid (subs_of g (g_gkey g) gn feats)) && all_same (map r_strand (subs_of g (g_gkey g) gn feats))
                      && negb (mem_str gn (keys_of (g_tkey g) feats)))
@@ -61,26 +62,39 @@ Definition orphan_gene (g : gtfcfg) (feats : list row) (gn : str) : bool :=
 Definition f21_class (g : gtfcfg) (feats : list row) : bool :=
   existsb (orphan_gene g feats) (keys_of (g_gkey g) (filter (is_sub g) feats)).
 
-Definition spec_ok (lenient : bool) (g : gtfcfg) (feats : list row) (t : tables) : bool :=
+Definition spec_ok (lenient : bool) (g : gtfcfg) (feats : list row) (skip gap : nat) (t : tables) : bool :=
   forallb (derived_ok g feats t (g_tkey g) TRANSCRIPT (g_no_transcripts g)) (keys_of (g_tkey g) (filter (is_sub g) feats))
   && forallb (fun gn => if lenient && orphan_gene g feats gn
                         then Nat.eqb (length (filter (fun r => str_eqb (r_id r) gn) (t_rows t))) 0
                         else derived_ok g feats t (g_gkey g) GENE (g_no_genes g) gn)
              (keys_of (g_gkey g) (filter (is_sub g) feats))
-  && rels_seteq (zip_rel g feats (t_rows t)) (t_rels t)
+  (* line i <-> the row stored for it: the i-th row, or - for the lines of a second batch - the rows after everything the
+     first import left ([skip] = number of lines of the first batch, [gap] = number of rows it derived) *)
+  && rels_seteq (zip_rel g feats (firstn skip (t_rows t) ++ skipn (skip + gap) (t_rows t))) (t_rels t)
   (* never its own parent or child *)
   && forallb (fun x => negb (str_eqb (rel_parent x) (rel_child x))) (t_rels t).
 
+Definition disjoint_ids (g : gtfcfg) (a b : list row) : bool :=
+  let ids := fun l => keys_of (g_tkey g) l ++ keys_of (g_gkey g) l in
+  negb (existsb (fun x => mem_str x (ids b)) (ids a)).
+
 Definition verdict (c : case) : Z :=
   match c with
-  | Case g strat extra feats impl =>
-    if in_domain g feats then
+  | Case g strat extra feats feats2 impl =>
+    if in_domain g (feats ++ feats2) && (match feats2 with [] => true | _ => disjoint_ids g feats feats2 end) then
       let spec := match gtf_spec g with SDict d => SDict (d ++ extra) | x => x end in
-      match import_gtf call_table g strat [] spec feats empty_st, impl with
+      let m1 := import_gtf call_table g strat [] spec feats empty_st in
+      let m := match m1, feats2 with
+               | Ok st1, _ :: _ => import_gtf call_table g strat [] spec feats2 st1
+               | r, _ => r
+               end in
+      let gap := match m1, feats2 with Ok st1, _ :: _ => (length (s_rows st1) - length feats)%nat | _, _ => O end in
+      let all := feats ++ feats2 in
+      match m, impl with
       | Ok st, Ok t =>
           if st_matches_set st t then
-            if spec_ok false g feats t then (if f21_class g feats then V_FIXED else V_OK)
-            else if f21_class g feats && spec_ok true g feats t then V_KNOWN 21 else V_BAD
+            if spec_ok false g all (length feats) gap t then (if f21_class g all then V_FIXED else V_OK)
+            else if f21_class g all && spec_ok true g all (length feats) gap t then V_KNOWN 21 else V_BAD
           else V_BAD
       | Err EOther, _ => V_OUT
       | Err e, Err e' => if err_eqb e e' then V_OK else V_BAD
